@@ -105,6 +105,11 @@ func (g *Group) mkTestPoint(label string, aff reflect.Value, r *Rng) *testPoint 
 		lam := g.RandCoord(r)
 		tp.jac = append(tp.jac, g.RescaleJac(j, lam))
 	}
+	if isInf {
+		// the zero value (0, 0, 0) is another encoding of the point at infinity (what `var p G1Jac` holds and what some
+		// routines return), besides (1, 1, 0) and its rescalings
+		tp.jac = append(tp.jac, g.NewJac())
+	}
 	if g.ExtT != nil {
 		e := g.ToExt(aff)
 		tp.ext = append(tp.ext, e)
